@@ -1005,7 +1005,7 @@ func (s *scen) tokList(paths []string) [][]string {
 
 func (s *scen) stepCall(st *Step) {
 	w := s.ws[st.W]
-	line := J{"k": "call", "w": st.W, "t": st.T, "op": st.Op, "abs": false, "arg": []string{}, "resino": "", "reserr": "", "reskind": "",
+	line := J{"k": "call", "w": st.W, "t": st.T, "op": st.Op, "abs": false, "arg": []string{}, "resino": "", "reserr": "", "reskind": "", "tree": []J{},
 		"ops": -1, "nofollow": st.NoFollow, "recurse": st.Recurse, "async": st.Async, "ret": "", "wl": [][]string{}, "wlnil": false}
 	if w == nil || w.W == nil {
 		line["ret"] = "nowatcher"
@@ -1028,6 +1028,20 @@ func (s *scen) stepCall(st *Step) {
 		// What the argument resolves to right now (an observation of the environment, not an expectation).
 		ino, kind, e := s.inoOf(filepath.Clean(s.render(st.Arg)), !st.NoFollow)
 		line["resino"], line["reskind"], line["reserr"] = ino, kind, e
+		if st.Recurse && e == "" {
+			// the directories below the root as they are now (an observation of the environment)
+			tree := []J{}
+			root := filepath.Clean(s.render(st.Arg))
+			filepath.WalkDir(root, func(p string, d os.DirEntry, err error) error {
+				if err != nil || !d.IsDir() {
+					return nil
+				}
+				t, _, _ := s.inoOf(p, false)
+				tree = append(tree, J{"ino": t, "path": s.tokPath(p)})
+				return nil
+			})
+			line["tree"] = tree
+		}
 	}
 	pc := &pendingCall{done: make(chan J, 1), op: st.Op, w: st.W}
 	W := w.W
